@@ -18,5 +18,17 @@ if cmd == "add":
         ent["record"] = f"fixed: property={prop} {commit} {what}"
     data["findings"] = [e for e in data["findings"] if e["id"] != kid] + [ent]
     data["findings"].sort(key=lambda e: e["id"])
+if cmd == "addsig":
+    kid, prop, status, commit, src, sig = sys.argv[2:8]
+    what = " ".join(sys.argv[8:])
+    dst = os.path.join("known", kid + ".json")
+    shutil.copy(src, os.path.join(ROOT, dst))
+    ent = {"id": kid, "property": prop, "status": status, "what": what,
+           "witness": dst, "signature": json.loads(sig)}
+    if status == "fixed":
+        ent["commit"] = commit
+        ent["record"] = f"fixed: property={prop} {commit} {what}"
+    data["findings"] = [e for e in data["findings"] if e["id"] != kid] + [ent]
+    data["findings"].sort(key=lambda e: e["id"])
 json.dump(data, open(path, "w"), indent=1)
 print(len(data["findings"]), "entries")
